@@ -74,7 +74,9 @@ class Build:
             text = self.mir_text(overflow_checks, features)
             t0 = time.time()
             fns, promoted, allocs = mirparse.parse_mir(text)
+            consts, statics = dict(mirparse.consts), dict(mirparse.statics)
             prog = Program(fns, promoted, allocs, self.source_tables(features), overflow_checks, hashlib.sha256(text.encode()).hexdigest())
+            prog.consts = consts; prog.statics = statics
             self.timings['parse-' + str(key)] = round(time.time() - t0, 2)
             self._programs[key] = prog
         return self._programs[key]
@@ -195,6 +197,7 @@ class Program:
         self.overflow_checks = overflow_checks; self.digest = digest
         self._enum_cache = {}
         self._callee_cache = {}
+        self.consts = {}; self.statics = {}
         self.closures = {}
         self.impl_fns = {}     # (file, line) -> {method: defname}
         for name in fns:
